@@ -11,7 +11,7 @@ def comps(p): return [c for c in p.split("/") if c]
 
 class Gen:
     def __init__(self, focus, seed):
-        self.focus = focus; self.rng = random.Random("%s/%d" % (focus, seed))
+        self.focus = focus; self.seed = seed; self.rng = random.Random("%s/%d" % (focus, seed))
         self.nodes = {}; self.fs0 = {}; self.paths = {}; self.steps = []
         self.markers = []; self.headers = []; self.sources = []; self.trees = []
     # ------------------------------------------------------------------ file system
@@ -127,6 +127,18 @@ class Gen:
         desc["targets"]["t"] = desc["targets"]["t"] + ["od"]
         return desc
 
+    def add_mutable(self, desc, r):
+        """the documented idiom for a file modified in place: `mk` creates "mo" (is-mutated) and a command timestamp,
+        `mu` consumes the timestamp and appends to "mo"; both re-run together, tampering with "mo" re-runs nothing"""
+        self.fs0["mo"] = dict(t="none", c=""); self.nodes["mo"] = node("file", "mo", mut=True)
+        self.nodes["<mo.ts>"] = node("virtual", "", ts=True); self.nodes["<mu>"] = node("virtual", "")
+        desc["cmds"]["mk"] = cmd(ins=[r.choice(self.sources)], outs=r.choice([["mo", "<mo.ts>"], ["<mo.ts>", "mo"]]), tag="mk",
+                                 failif=r.choice(self.markers) if r.random() < 0.2 else "")
+        desc["cmds"]["mu"] = cmd(ins=["<mo.ts>"] + ([r.choice(self.sources)] if r.random() < 0.3 else []), outs=["<mu>"], tag="mu", mutates="mo")
+        desc["order"] += ["mk", "mu"]
+        desc["targets"]["t"] = desc["targets"]["t"] + ["<mu>"]
+        return desc
+
     def add_stale(self, desc):
         """C14: a stale-file-removal command whose expected list and roots change over the history"""
         r = self.rng
@@ -159,7 +171,7 @@ class Gen:
     # ------------------------------------------------------------------ description edits
     def edit_desc(self, desc):
         r = self.rng; d = copy.deepcopy(desc)
-        shells = [n for n, c in d["cmds"].items() if c["tool"] == "shell"]
+        shells = [n for n, c in d["cmds"].items() if c["tool"] == "shell" and n not in ("mk", "mu")]     # (the in-place idiom keeps its shape)
         kinds = ["tag", "extra", "env", "rewire", "remove", "flag", "signature", "depstyle", "boundary", "addinput", "restore", "argenv", "dupout", "argsplit"]
         k = r.choice(kinds)
         if self.focus == "C09" and r.random() < 0.5:      # prefer edits that change only a signature-relevant detail
@@ -173,6 +185,7 @@ class Gen:
         if k == "argenv":
             cand = [x for x in shells if len(d["cmds"][x]["_extra"]) >= 2 and not d["cmds"][x]["_env"]]
             if cand: n = r.choice(cand)
+        if "mu" in d["cmds"] and self.r3.random() < 0.25: n = self.r3.choice(["mu", "mk"]); k = "tag"     # only one half of the in-place idiom changes
         c = d["cmds"].get(n)
         if k == "tag":
             c["tag"] = c["tag"] + "x"
@@ -230,13 +243,17 @@ class Gen:
         desc = self.base_desc()
         if f == "C12": desc = self.add_tree(desc)
         if f == "C14": desc = self.add_stale(desc)
-        self.desc0 = copy.deepcopy(desc)
+        r3 = random.Random("mut/%s/%d" % (f, self.seed))      # (a stream of its own: the histories of a seed stay what they were)
+        self.r3 = r3
         db = r.random() < 0.9; serial = r.random() < 0.5
         # the client cancels the build at the first failure (what the command line tool does): serial execution, and a new
         # frontend after every build (the in-memory state of an aborted build is the engine-level subject C05)
         cof = f in ("C10", "C08") and r.random() < 0.3
         if cof: serial = True
         self.cof = cof
+        # (not in histories with aborted builds: a file written by two commands has intermediate states an abort exposes)
+        if r3.random() < {"C08": 0.3, "C09": 0.3, "C10": 0.2}.get(f, 0.1) and not cof: desc = self.add_mutable(desc, r3)
+        self.desc0 = copy.deepcopy(desc)
         steps = [("frontend", desc, db, serial, cof)]
         tgts = list(desc["targets"])
         nsteps = r.randint(5, 9)
@@ -312,7 +329,18 @@ class Gen:
                     cur = [x for x in out2 if x[0] == "frontend"][-1]
                     out2.append(("frontend", copy.deepcopy(cur[1]), cur[2], cur[3], True))
             steps = out2
-        # stale-file removal is requested through target s: give it the node of the removal command
+        # the client's delegate refuses to start some commands in some builds (shouldCommandStart): drawn from a stream
+        # of its own so that the histories of a seed stay what they were
+        r2 = random.Random("skip/%s/%d" % (f, self.seed))
+        pskip = {"C10": 0.22, "C08": 0.15}.get(f, 0.06)
+        out3 = []; cur = None
+        for st in steps:
+            if st[0] == "frontend": cur = st[1]
+            if st[0] in ("build", "buildnode") and cur is not None and cur["cmds"] and r2.random() < pskip:
+                names = sorted(cur["cmds"])
+                out3.append(("skip", r2.sample(names, min(len(names), r2.choice([1, 1, 2])))))
+            out3.append(st)
+        steps = out3
         return steps
 
     def case(self):
